@@ -309,6 +309,29 @@ def k1_tagged(src):
         for tag, _ in pairs:
             tl = tl + (3 if (tag >= 16384) else (2 if (tag >= 128) else 1))
         src.check(len(enc) == total + tl, "TaggedFields wire length != count + sum(tag + size + value)")
+        # byte-for-byte layout per the protocol guide (KIP-482): uvarint count, then for each field
+        # uvarint tag, uvarint size (the plain byte count, not the compact-bytes N+1 form), the bytes
+        pos = len(_ref_uvarint(nf))
+        src.check(SymBuf(enc[:pos]) == bytes(_ref_uvarint(nf)), "TaggedFields: field count is not an unsigned varint")
+        for i, (tag, val) in enumerate(pairs):
+            if pos + 1 > len(enc):
+                break
+            if tag >= 16384:
+                ok = s_and(enc[pos] == ((tag & 0x7F) | 0x80), enc[pos + 1] == (((tag >> 7) & 0x7F) | 0x80), enc[pos + 2] == (tag >> 14))
+                pos += 3
+            elif tag >= 128:
+                ok = s_and(enc[pos] == ((tag & 0x7F) | 0x80), enc[pos + 1] == (tag >> 7))
+                pos += 2
+            else:
+                ok = enc[pos] == tag
+                pos += 1
+            src.check(ok, f"TaggedFields: tag of field {i} is not written as an unsigned varint")
+            want_size = len(val) + (1 if src.twin else 0)
+            src.check(pos < len(enc) and enc[pos] == want_size,
+                      f"TaggedFields: size of field {i} on the wire is not its byte count (unsigned varint N)", value_len=len(val))
+            pos += 1
+            src.check(SymBuf(enc[pos:pos + len(val)]) == val, f"TaggedFields: bytes of field {i} are not written verbatim")
+            pos += len(val)
 
 
 def k1_boolean(src):
